@@ -579,15 +579,29 @@ theorem keepBefore_keeps_prefix {α : Type} (lt : α → α → Bool) (dist : σ
 example : keepAfter (fun a b : Nat => decide (a < b)) (fun a b => (a - b) + (b - a)) 26 [0, 10, 20, 30, 40] = [30, 40] := by decide
 example : keepBefore (fun a b : Nat => decide (a < b)) (fun a b => (a - b) + (b - a)) 24 [0, 10, 20, 30, 40] = [0, 10, 20] := by decide
 
-/-- **F172 (open finding)**: as coded — no size guard — `perturbPath` indexes out of range on a one-state path (and on
-an empty one as soon as a step is taken); `perturb_indices_in_range_partial` lists this source (`st.length ≤ 1`) -/
+/-- the FORMER code (before fix c9720002d, F172): no size guard — `perturbPath` indexed out of range on a one-state
+path (and on an empty one as soon as a step was taken) -/
 theorem perturb_short_path_indices_fails :
     perturbPath ppToy 1 1 [5] = none ∧ perturbPath ppToy 0 0 ([] : List Nat) = some ([], false) ∧
     perturbPath ppToy 1 1 ([] : List Nat) = none := perturbPath_short_fails
 
-/-- with the guard proposed in notes/C17-fix-F172.diff a path of fewer than two states is returned unchanged -/
+/-- the tree's routine (`perturbPathGuarded`): a path of fewer than two states is returned unchanged, `false` … -/
 theorem perturb_guarded_short_unchanged {α γ : Type} (E : PpEnv σ α γ) (ms me : Nat) (path : List σ) (h : path.length < 2) :
     perturbPathGuarded E ms me path = some (path, false) := perturbPathGuarded_short E ms me path h
+
+/-- … and otherwise it IS the routine all `perturb_*` theorems above are about (they transfer through this case split;
+in `perturb_indices_in_range_partial` the source "a path of at most one state" is thereby gone for the input path) -/
+theorem perturb_guarded_cases {α γ : Type} {E : PpEnv σ α γ} {ms me : Nat} {path out : List σ} {r : Bool}
+    (h : perturbPathGuarded E ms me path = some (out, r)) :
+    (path.length < 2 ∧ out = path ∧ r = false) ∨ (2 ≤ path.length ∧ perturbPath E ms me path = some (out, r)) :=
+  perturbPathGuarded_cases h
+
+/-- e.g. the accepted-steps refinement for the tree's routine -/
+theorem perturb_guarded_steps {α γ : Type} {E : PpEnv σ α γ} {ms me : Nat} {path out : List σ} {r : Bool}
+    (h : perturbPathGuarded E ms me path = some (out, r)) : PpAcceptedStar E path out := by
+  rcases perturbPathGuarded_cases h with ⟨_, rfl, _⟩ | ⟨_, h'⟩
+  · exact .refl _
+  · exact perturbPath_steps h'
 
 /-! ## checkAndRepair with a scripted valid-sampler (Model/PathOpsRepair.lean) -/
 
